@@ -242,6 +242,13 @@ func builtinIntrinsics() map[string]Intrinsic {
 	I[zz+"Iff"] = func(m *Machine, fn *ssa.Function, a []Value) Value { return m.ctx.Eq(term(a[0]), term(a[1])) }
 	ite := func(m *Machine, fn *ssa.Function, a []Value) Value { return m.ctx.Ite(term(a[0]), term(a[1]), term(a[2])) }
 	I[zz+"IteI"], I[zz+"IteU"] = ite, ite
+	I[zz+"Decimal"] = func(m *Machine, fn *ssa.Function, a []Value) Value {
+		e := m.concInt(a[1], "Decimal exponent")
+		if e < -48 || e > 48 {
+			m.unsupported("zzverif.Decimal exponent outside [-48,48]")
+		}
+		return m.ctx.Decimal(term(a[0]), e)
+	}
 	I[zz+"SymbolicMapOrder"] = func(m *Machine, fn *ssa.Function, a []Value) Value { m.locals["maporder"] = true; return nil }
 	I[zz+"UF64"] = func(m *Machine, fn *ssa.Function, a []Value) Value {
 		name := m.strArg(a[0])
